@@ -2,6 +2,7 @@ package props
 
 import (
 	"bytes"
+	"encoding/json"
 	"fmt"
 	"math"
 	"strings"
@@ -67,9 +68,11 @@ func genJSONTable(t *rapid.T) hx.Table {
 			nanFree := rapid.Bool().Draw(t, "nanfree")
 			for r := 0; r < n; r++ {
 				var f float64
-				switch rapid.IntRange(0, 3).Draw(t, "fkind") {
+				switch rapid.IntRange(0, 4).Draw(t, "fkind") {
 				case 0:
 					f = math.Float64frombits(rapid.Uint64().Draw(t, "bits"))
+				case 4:
+					f = hx.GenFloatStructured(t)
 				case 1:
 					f = hx.GenFloat(t, false)
 				default:
@@ -264,6 +267,27 @@ func propC14(t *rapid.T) {
 				}
 			}
 			classes = append(classes, "inverse-checked")
+		}
+		// a frame with rows but without columns (GroupBy().Aggregate() without keys and aggregations): one empty object per row
+		if rapid.IntRange(0, 9).Draw(t, "columnless") == 0 {
+			zc := d.QF.GroupBy().Aggregate()
+			if zc.Err == nil && len(zc.ColumnNames()) == 0 {
+				var zbuf bytes.Buffer
+				var zerr error
+				if perr := hx.Safely(func() { zerr = zc.ToJSON(&zbuf) }); perr != nil || zerr != nil {
+					t.Fatalf("ToJSON of a column-less frame with %d rows: panic %v, error %v\n%s", zc.Len(), perr, zerr, desc())
+				}
+				var recs []map[string]interface{}
+				if err := json.Unmarshal(zbuf.Bytes(), &recs); err != nil || len(recs) != zc.Len() {
+					t.Fatalf("ToJSON of a column-less frame with %d rows wrote %q (%v; %d records)\n%s", zc.Len(), zbuf.String(), err, len(recs), desc())
+				}
+				for _, r := range recs {
+					if len(r) != 0 || r == nil {
+						t.Fatalf("ToJSON of a column-less frame with %d rows wrote %q\n%s", zc.Len(), zbuf.String(), desc())
+					}
+				}
+				classes = append(classes, "columnless-frame")
+			}
 		}
 		if escape {
 			classes = append(classes, "needs-escape")
